@@ -42,30 +42,30 @@ var evNames = map[EvKind]string{EvCall: "call", EvGo: "go", EvDefer: "defer", Ev
 func (k EvKind) String() string { return evNames[k] }
 
 type Event struct {
-	Kind      EvKind
-	Instr     ssa.Instruction
-	Pos       token.Pos
-	Fn        *ssa.Function // function whose body contains the instruction
-	Depth     int           // inlining depth (0 = root)
-	Call      *CallInfo
-	Addr      *Sym // store/load address, channel, map
-	Key       *Sym
-	Val       *Sym
-	Res       *Sym
-	Cond      *Sym
-	Taken     bool
-	Forced    bool // branch decided by the abstract store
-	InDefer   bool // executed while deferred calls are running
-	Panicking bool // executed while a panic is in flight
+	Kind       EvKind
+	Instr      ssa.Instruction
+	Pos        token.Pos
+	Fn         *ssa.Function // function whose body contains the instruction
+	Depth      int           // inlining depth (0 = root)
+	Call       *CallInfo
+	Addr       *Sym // store/load address, channel, map
+	Key        *Sym
+	Val        *Sym
+	Res        *Sym
+	Cond       *Sym
+	Taken      bool
+	Forced     bool // branch decided by the abstract store
+	InDefer    bool // executed while deferred calls are running
+	Panicking  bool // executed while a panic is in flight
 	PanicsHere bool // this call is where the modelled panic originates
-	Inlined   bool
-	SelIndex  int
-	SelN      int
-	SelDir    types.ChanDir
-	Blocking  bool
-	Via       *CallInfo // the modelled call through which this closure was invoked
-	Results   []*Sym
-	Seq       int
+	Inlined    bool
+	SelIndex   int
+	SelN       int
+	SelDir     types.ChanDir
+	Blocking   bool
+	Via        *CallInfo // the modelled call through which this closure was invoked
+	Results    []*Sym
+	Seq        int
 }
 
 type ExitKind int
@@ -73,7 +73,7 @@ type ExitKind int
 const (
 	ExitReturn ExitKind = iota
 	ExitPanic
-	ExitCut    // loop bound reached
+	ExitCut // loop bound reached
 	ExitNoReturn
 )
 
